@@ -163,8 +163,12 @@ class Gen(object):
 
     def s(self, base):
         """a string value; with the unicode option sometimes an unusual one"""
-        if self.unicode and self.rng.random() < 0.3:
-            return self.rng.choice(UNICODE) + base
+        if self.unicode:
+            x = self.rng.random()
+            if x < 0.3:
+                return self.rng.choice(UNICODE) + base
+            if x < 0.34:
+                return self.rng.choice(["", "0", " ", "None", "false"])     # falsy-looking but legal
         return base
 
     def live(self):
@@ -392,11 +396,15 @@ class Gen(object):
         elif k == "release-mismatch":
             if c.app is None or c.claimed is None or c.released:
                 return []
-            m = {"type": "release", "nameplate": "other-" + self.uniq("n")}
+            m = {"type": "release", "nameplate": r.choice(["", "0", " ", "other-" + self.uniq("n")])}
+            if m["nameplate"] == c.claimed:
+                return []
         elif k == "close-mismatch":
             if c.app is None or c.opened is None or c.closed:
                 return []
-            m = {"type": "close", "mailbox": "other-" + self.uniq("x")}
+            m = {"type": "close", "mailbox": r.choice(["", "0", " ", "other-" + self.uniq("x")])}
+            if m["mailbox"] == c.opened:
+                return []
         elif k == "add-noopen":
             if c.opened is not None and not c.closed:
                 return []
